@@ -52,6 +52,10 @@ AUDIT = {
 }
 
 
+# crates that contain no decoder at all: every function of theirs is neutral for canonicity
+NEUTRAL_CRATES = {"subtle": "constant-time Choice/CtOption plumbing", "ctutils": "constant-time Choice/CtOption plumbing"}
+
+
 def lock_versions():
     out = {}
     p = os.path.join(facts.REPO, "Cargo.lock")
@@ -114,6 +118,9 @@ def check_decoders(ctx):
         for g in fam:
             for (bb, t, ci) in g.calls():
                 if not ci or ci["crate"] in ("core", "alloc", "std") or ci["crate"].startswith("frost"):
+                    continue
+                if ci["crate"] in NEUTRAL_CRATES:
+                    verdicts.append((short(ci["path"]), "neutral (%s)" % NEUTRAL_CRATES[ci["crate"]]))
                     continue
                 path = ci.get("resolved") if False else ci["path"]
                 row = None
